@@ -14,7 +14,7 @@ RULE = ('Base documents: generated conformant documents of every selectable map 
         'non-trivial = distinct (map, node path, fault kind) triples decided.')
 ASSUMPTIONS = ['a syntax fault may be reported at any element position the violated note names', 'unknown / out-of-place segments may be reported with segment code 1 or 2',
                'faults are only injected where they cannot change how the segment or its neighbours are matched (no qualifiers, HL/LX numbers, BHT02), except the structural kinds, which are constructed so that the successor still matches its own node first']
-REQUIRED_COUNTERS = ['faults'] + ['kind:' + k for k in faults.ALL_KINDS] + ['localised', 'others-accepted-checked']
+REQUIRED_COUNTERS = ['bases:with-interleaved-sibling-loops', 'bases:with-X,Y,X-sibling-loops', 'missing_segment:in-later-instance-after-sibling-loop', 'faults'] + ['kind:' + k for k in faults.ALL_KINDS] + ['localised', 'others-accepted-checked']
 MIN_CASES = {'quick': 1200, 'thorough': 30000}
 WATCHDOG_S = {'quick': 1200, 'thorough': 7200}
 
@@ -124,18 +124,29 @@ def run(ctx):
     n = 0
     entries = [e for e in gen_doc.index_entries() if e['file'] != '841.4010.XXXC.xml']
     per_map = 7 if ctx.quick else 60
+    extra = 10 if ctx.quick else 60        # further bases, X,Y,X pattern only, for the maps that have such a loop group (dropped otherwise)
     for e in entries:
         label = e['file'] + ('/tspc=%s' % e['tspc'] if e.get('tspc') else '')
-        for k in range(per_map):
+        for k in range(per_map + extra):
             if not ctx.mine((label, k)):
                 continue
             rng = ctx.sub_rng('c03', label, k)
-            kw = dict(fill=[0.4, 0.7, 1.0][k % 3], opt_prob=[0.5, 0.8][k % 2], maxrep=[1, 2][k % 2], charset=['E', 'B'][k % 2], rich=False, n_isa=1, n_gs=1, n_st=2)
+            kw = dict(fill=[0.4, 0.7, 1.0][k % 3], opt_prob=[0.5, 0.8][k % 2], maxrep=[1, 2][k % 2], charset=['E', 'B'][k % 2], rich=False, n_isa=1, n_gs=1, n_st=2,
+                      interleave=(k % 3 != 0),       # instances of same-position sibling loops in shuffled order (kept only if the base is accepted)
+                      force_xyx=(k % 3 == 2))       # ... with an X, Y, X pattern wherever a repeatable loop with a required inner segment has same-position siblings
+            only_xyx = k >= per_map
+            if only_xyx:
+                kw.update(interleave=True, force_xyx=True)
+            if kw['force_xyx']:
+                kw['fill'] = [0.5, 0.3][k % 2]      # the pattern adds instances; keep the base under the size limit
             seed = zlib.crc32(repr((ctx.seed, label, k)).encode())
             try:
                 base = gen_doc.gen_document(e, seed, **kw)
             except gen_doc.GenFailed:
                 ctx.count('genfailed')
+                continue
+            xyx = bool(base.meta.get('xyx_groups'))
+            if only_xyx and not xyx:
                 continue
             if len(base.recs) > 600:
                 ctx.count('skipped-large')
@@ -143,20 +154,25 @@ def run(ctx):
             # the base must itself be accepted, otherwise "exactly one violation" is not true (C02 judges bases)
             r0 = pipeline.validate(base.text(), charset=base.charset)
             if r0.exc is not None or r0.verdict is not True:
-                ctx.count('base-not-accepted')
+                ctx.count('base-not-accepted' + (':interleaved' if base.meta.get('interleaved_groups') else ''))
                 continue
+            if base.meta.get('interleaved_groups'):
+                ctx.count('bases:with-interleaved-sibling-loops')
+            if xyx:
+                ctx.count('bases:with-X,Y,X-sibling-loops')
             reps = 1 if ctx.quick else 3
-            for kind in faults.ALL_KINDS:
-                for rep in range(reps):
+            kinds = faults.ALL_KINDS if not only_xyx else ['missing_segment', 'max_use', 'loop_repeat', 'out_of_place', 'missing_required']
+            for kind in kinds:
+                for rep in range(reps + (4 if xyx and kind == 'missing_segment' else 0)):
                     f = faults.inject(rng, base, kind=kind, tries=6)
                     if f is None:
                         ctx.count('not-applicable:' + kind)
                         break
                     case = {'map': e['file'], 'entry': e, 'gen_seed': seed, 'params': kw, 'fault': f.describe(), 'text': f.doc.text() if len(f.doc.recs) < 120 else None}
+                    if f.note == 'later-instance-after-sibling':
+                        ctx.count('missing_segment:in-later-instance-after-sibling-loop')
                     judge(ctx, f, case, sigs)
                     n += 1
-        if ctx.mine(label) and n:
-            pass
     ctx.case(n=n, sigs=sorted(sigs), sample={'fault_kinds': faults.ALL_KINDS})
 
 
